@@ -3,11 +3,11 @@
 # Runs tools/try_mutant.sh for every stored change in parallel "lanes". A lane is a private mount namespace in which
 # a clone of /repo at HEAD is bind-mounted over /repo and a copy of /verif (without build output) over /verif, so the
 # registered commands run unchanged and /repo itself is never touched. Results: /verif/<kind>/RESULTS.txt
-kind=${1:-seeded}; N=${2:-5}
-base=/tmp/lanes; out=/verif/$kind/RESULTS.txt
+kind=${1:-seeded}; N=${2:-5}; filt=${3:-}   # optional 3rd argument: only ids matching this grep pattern; results then go to RESULTS.<pattern>.txt
+base=/tmp/lanes; out=/verif/$kind/RESULTS.txt; [ -n "$filt" ] && out=/verif/$kind/RESULTS.$(echo $filt | tr -cd 'A-Za-z0-9-').txt
 rm -rf $base; mkdir -p $base/q
 i=0
-for d in /verif/$kind/*/; do [ -f $d/patch.diff ] && { i=$((i+1)); echo "$(basename $d)" > $base/q/$(printf %04d $i); }; done
+for d in /verif/$kind/*/; do [ -f $d/patch.diff ] && { [ -z "$filt" ] || basename $d | grep -q -- "$filt"; } && { i=$((i+1)); echo "$(basename $d)" > $base/q/$(printf %04d $i); }; done
 for k in $(seq 1 $N); do
   mkdir -p $base/$k
   git clone -q /repo $base/$k/repo
